@@ -28,15 +28,16 @@ type LedgerEntry struct {
 type Ledger map[string]map[string]LedgerEntry // property -> obligation -> entry
 
 type KnownFinding struct {
-	Status     string `json:"status"` // known | fixed
-	Property   string `json:"property"`
-	Obligation string `json:"obligation"`
-	What       string `json:"what"`
-	Witness    string `json:"witness,omitempty"` // test file under /verif/witness, passes iff the defect is present
-	WitnessPkg string `json:"witness_pkg,omitempty"`
-	WitnessRun string `json:"witness_run,omitempty"`
-	Commit     string `json:"commit,omitempty"`
-	Group      string `json:"group,omitempty"` // findings sharing one witness/what line
+	Status      string `json:"status"` // known | fixed
+	Property    string `json:"property"`
+	Obligation  string `json:"obligation"`
+	What        string `json:"what"`
+	Witness     string `json:"witness,omitempty"` // test file under /verif/witness, passes iff the defect is present
+	WitnessPkg  string `json:"witness_pkg,omitempty"`
+	WitnessRun  string `json:"witness_run,omitempty"`
+	Commit      string `json:"commit,omitempty"`
+	Group       string `json:"group,omitempty"`        // findings sharing one witness/what line
+	WitnessRace bool   `json:"witness_race,omitempty"` // run the witness with -race; the defect is present iff a data race is reported
 }
 
 func loadLedger(verif string) Ledger {
@@ -106,6 +107,9 @@ func ledgerCmd(opts *RunOpts, args []string) int {
 				continue
 			}
 			for _, ob := range res.Obls {
+				if (strings.Contains(ob.Name, "#perm.r.") || strings.Contains(ob.Name, "#perm.w.")) && p != "C12" {
+					continue
+				}
 				st := ob.Status
 				switch st {
 				case "proved", "ok":
@@ -174,7 +178,11 @@ func runWitness(opts *RunOpts, k *KnownFinding) (bool, string) {
 	os.WriteFile(ovf, ob, 0o644)
 	ctx, cancel := context.WithTimeout(context.Background(), 240*time.Second)
 	defer cancel()
-	cmd := exec.CommandContext(ctx, "go", "test", "-overlay", ovf, "-vet=off", "-timeout", "120s", "-count=1", "-run", "^"+k.WitnessRun+"$", "./"+k.WitnessPkg)
+	args := []string{"test", "-overlay", ovf, "-vet=off", "-timeout", "120s", "-count=1", "-run", "^" + k.WitnessRun + "$", "./" + k.WitnessPkg}
+	if k.WitnessRace {
+		args = append([]string{"test", "-race"}, args[1:]...)
+	}
+	cmd := exec.CommandContext(ctx, "go", args...)
 	cmd.Dir = opts.Repo
 	cmd.Env = append(os.Environ(), "GOFLAGS=-mod=mod", "GOPROXY=off")
 	var out bytes.Buffer
@@ -182,6 +190,11 @@ func runWitness(opts *RunOpts, k *KnownFinding) (bool, string) {
 	cmd.Stderr = &out
 	err = cmd.Run()
 	s := out.String()
+	if k.WitnessRace {
+		// a data-race witness: the defect is present iff the race detector reports a
+		// race in the named test (the test then fails)
+		return err != nil && strings.Contains(s, "WARNING: DATA RACE") && strings.Contains(s, "--- FAIL: "+k.WitnessRun), s
+	}
 	if err != nil {
 		return false, s
 	}
@@ -270,7 +283,7 @@ func checkCmd(opts *RunOpts, args []string) int {
 		// cannot analyse (e.g. repository does not type-check): undecided, no alarm
 		fmt.Printf("UNDECIDED property=%s engine could not run: %v\n", prop, err)
 		writeEvidence(evPath, &Evidence{PropertyID: prop, Tier: opts.Tier, Seed: seed, Level: "other",
-			Coverage: map[string]any{"explanation": "the verifier could not analyse the tree: " + err.Error(), "obligations": 0, "discharged": 0},
+			Coverage:    map[string]any{"explanation": "the verifier could not analyse the tree: " + err.Error(), "obligations": 0, "discharged": 0},
 			Assumptions: standingAssumptions, WallS: time.Since(t0).Seconds()})
 		return 0
 	}
@@ -310,6 +323,12 @@ func checkCmd(opts *RunOpts, args []string) int {
 			notes = append(notes, res.Name+": "+n)
 		}
 		for _, ob := range res.Obls {
+			if strings.Contains(ob.Name, "#perm.r.") || strings.Contains(ob.Name, "#perm.w.") {
+				// lock-discipline obligations of guarded fields belong to C12 only
+				if prop != "C12" {
+					continue
+				}
+			}
 			seenObl[ob.Name] = true
 			if ob.Kind == "vacuity" {
 				nVac++
